@@ -12,6 +12,7 @@ disagreement) and compare with malt.pyct.parser.parse_entity.  Failing cases are
 the enumerated space to a minimal failing case: the signature names the layout features that remain.
 """
 import collections
+import re
 import json
 import multiprocessing
 import os
@@ -93,6 +94,11 @@ def _pmap(job, chunks, procs):
         return pool.map(job, chunks, chunksize=1)
 
 
+def _stable(text):
+    """strip run-dependent parts (addresses, batch-local names) from messages"""
+    return re.sub(r'<function .*? at 0x[0-9a-f]+>', '<lambda object>', text)
+
+
 def _case_source(rec, name='f0'):
     return L.PRELUDE + '\n'.join(L.case_lines(rec, name)) + '\n'
 
@@ -172,7 +178,7 @@ def check_lambdas(rep, recs, procs):
     for key, i, cls, (rawsig, what), o in found:
         sig, m = cl.signature(key, cls)
         r, mr = by_key[key], by_key[m]
-        rep.violation(sig, what + '; minimal failing configuration: ' + mr['text'].replace('\n    ', ' '),
+        rep.violation(sig, _stable(what) + '; minimal failing configuration: ' + mr['text'].replace('\n    ', ' '),
                       dict(kind='lambda', config=r, index=i, outcome=list(o), local_signature=rawsig,
                            module_source=M.build_module([r])[0], minimal_module_source=M.build_module([mr])[0]))
     rep.set('lambda_classifier', dict(lookups=cl.lookups, not_enumerated=cl.misses))
